@@ -122,3 +122,19 @@ func TestGenParseReceive(t *testing.T) {
 		t.Fatalf("seq: %v", e)
 	}
 }
+
+func TestMaskRef(t *testing.T) {
+	for n := 0; n < 100; n++ {
+		for pos := 0; pos < 4; pos++ {
+			a := make([]byte, n)
+			for i := range a {
+				a[i] = byte(i * 13)
+			}
+			b := append([]byte{}, a...)
+			k := [4]byte{0x11, 0, 0xfe, 0x80}
+			if MaskRef(k, pos, a) != MaskByteWise(k, pos, b) || !bytes.Equal(a, b) {
+				t.Fatalf("n=%d pos=%d", n, pos)
+			}
+		}
+	}
+}
